@@ -212,6 +212,15 @@ def run(ctx):
                   'lengths) are accepted although the property requires every malformed encoding to be refused' % (fn, [n.rsplit('::', 1)[-1] for n in ber] or 'no DER parser found'))
     ctx.floor('R01.7', 'DER parser calls in the CredSSP readers', n_der, 2)
 
+    # ---- R01.8 the whole received signature is bound: Version is a checked constant, Checksum and SeqNum enter the comparison (layout rule
+    # R16.1 of C16, same facts): a signature field that is neither checked nor covered by the HMAC accepts corrupted tokens
+    import c16
+    ctx.include(c16.run, ('R16.1',), 'R01.8')
+    # ---- R01.9 the session key reaches the server only wrapped under the key-exchange key (wiring rule R15.4 of C15): a key sent in clear, or
+    # chosen by the server's flags, lets a server that does not know the password produce the `public key + 1` proof
+    import c15
+    ctx.include(c15.run, ('R15.4',), 'R01.9')
+
 
 def callee_key(P, call):
     return call.callee if call.callee in P.bodies else (call.body.crate + '::' + call.callee)
